@@ -18,6 +18,11 @@ Variable ceqb : C -> C -> bool.
 Variable isort : list I -> list I.     (* np.unique order of the index keys *)
 Variable csort : list C -> list C.     (* group order of iter_group_items *)
 Variable apply : F -> list A -> A.     (* the aggregation functions *)
+(* two decisions of the code, READ FROM THE SOURCE on every run (Gen/Gen_c20.v):
+   bypass = pivot_items / pivot_records_items hold `if len(values) == 1: values[0]` (a group of one row never reaches func);
+   raw    = Frame.pivot takes the raw values of a column group whose index labels are unique ("assume no aggregation necessary") *)
+Variable bypass : bool.
+Variable raw : bool.
 
 Record prow := mk_prow { p_i : I; p_c : C; p_d : list A }.
 
@@ -41,13 +46,13 @@ Fixpoint has_dup {X} (eqb : X -> X -> bool) (l : list X) : bool :=
 Definition agg_or_single (fill : A) (fn : F) (vs : list A) : A :=
   match vs with
   | [] => fill
-  | [v] => v
+  | [v] => if bypass then v else apply fn [v]
   | _ => apply fn vs
   end.
 
 Definition M_pivot_cell (fill : A) (rows : list prow) (i : I) (c : C) (k : nat) (fn : F) : A :=
   let sub := filter (fun r => ceqb c (p_c r)) rows in             (* iter_group_items(columns_fields) *)
-  if has_dup ieqb (map p_i sub)
+  if negb raw || has_dup ieqb (map p_i sub)
   then (* pivot_items / pivot_records_items on the sub-frame, then from_concat on the full index *)
        agg_or_single fill fn (field_values k fill (filter (fun r => ieqb i (p_i r)) sub))
   else (* "assume no aggregation necessary": the raw values, func is never called *)
